@@ -1,6 +1,7 @@
 SPECIFICATION FairSpec
 INVARIANT LoopSurvives
 INVARIANT NoResidue
+INVARIANT NoStaleRegistrations
 INVARIANT CanaryUndisturbed
 PROPERTY CanaryCompletes
 CHECK_DEADLOCK FALSE
